@@ -273,6 +273,51 @@ def r7_namespaces(ctx):
     ctx.extra['packet_sites'] = n
 
 
+def r12_no_value_limit(ctx):
+    """what one side may send the other side accepts: the encoder puts no
+    limit on the number of attachments (or on the id), so the decoder must
+    not reject a frame because of the VALUE of a number it has read (the
+    existing guards bound the number of DIGITS, which no payload the encoder
+    produces comes near)."""
+    m = ctx.model
+    f = m.own_method('Packet', 'decode')
+    from ..sym import with_new_helpers
+    n = 0
+    for g in with_new_helpers(m, f):
+        ints = set()
+        for x in walk_own(g.node):
+            if isinstance(x, ast.Assign) and isinstance(x.value, ast.Call) \
+                    and U(x.value.func) == 'int':
+                for t in x.targets:
+                    ints.add(U(t))
+        for x in walk_own(g.node):
+            if not isinstance(x, ast.If):
+                continue
+            raises = any(isinstance(y, ast.Raise) for b in x.body
+                         for y in ast.walk(b))
+            if not raises:
+                continue
+            n += 1
+            bad = [c for c in ast.walk(x.test) if isinstance(c, ast.Compare)
+                   and isinstance(c.ops[0], (ast.Gt, ast.GtE, ast.Lt,
+                                             ast.LtE)) and (
+                       (U(c.left) in ints and isinstance(
+                           c.comparators[0], ast.Constant)) or
+                       (U(c.comparators[0]) in ints and isinstance(
+                           c.left, ast.Constant)))]
+            ctx.check(not bad, 'Packet.' + g.name, 'the rejecting test `%s` '
+                      'does not bound the value of a decoded number'
+                      % U(x.test)[:50], key='value-limit',
+                      reason='decode rejects a frame when %s: a payload the '
+                      'encoder is free to produce (more attachments than '
+                      'that) is refused by the receiver, and its attachment '
+                      'frames are then parsed as packets' % (
+                          U(bad[0]) if bad else ''), where=where(g, x))
+    if n < 3:
+        raise AnalysisError('Packet.decode: only %d rejecting tests found'
+                            % n)
+
+
 def r9_msgpack(ctx):
     m = ctx.model
     td = m.own_method('Packet', '_to_dict')
@@ -483,6 +528,10 @@ def run(ctx):
     ctx.rule('C05.R8', 'engine.io built with async_handlers=False (shared '
              'rule)', floor=1)
     r8_engineio_ordered(ctx)
+    ctx.rule('C02.R12', 'the decoder rejects no frame because of the value '
+             'of a decoded number (encoder and decoder agree on what may be '
+             'sent)', floor=3)
+    r12_no_value_limit(ctx)
     ctx.rule('C02.R9', 'msgpack schema agreement', floor=5)
     r9_msgpack(ctx)
     ctx.rule('C02.R11', 'encoding is non-destructive: the codec never '
